@@ -10,7 +10,7 @@
     AgreeDocWords  word scanners and word motions
     AgreeDocFind   find / find_backwards
     AgreeDocBrk    brackets, find_boundaries_of_current_word, get_word_under_cursor
-    AgreeDocGen    the `\s` side condition of the C08 / C01 word theorems on the regenerated table
+    AgreeDocGen    side condition on the regenerated `\s` table (`\s` matches no word character)
     AgreeDocCut    selection_ranges / cut_selection (C08 vs C09)
 -/
 import Ptk.Props.AgreeDocBase
